@@ -34,7 +34,14 @@ Local(p, op, q, acc, n) ==
 \* tool error).
 Likely(p, m) ==
     LET x == msgs[m] IN
-    IF ~Valid(m) THEN (IF x.cls \in OkClasses THEN "ok" ELSE "err")
+    IF x.cls \in {"app_wrong_secret", "app_garbage", "app_unknown_dep"} THEN
+        \* unknown space: refused; not welcomed yet: queued unseen; welcomed: decrypted (or not)
+        IF ~\E k \in applied[p] : msgs[k].kind = "member" /\ Valid(k) THEN "err"
+        ELSE IF ~WelcomedOf(p, applied[p]) THEN "ok"
+        ELSE IF x.cls = "app_unknown_dep" /\ sview[p][p] # None THEN "ok" ELSE "err"
+    \* a first identity key for an unknown author is accepted
+    ELSE IF x.cls = "kb_other_identity" THEN (IF HasBundle(p, x.by) THEN "err" ELSE "ok")
+    ELSE IF ~Valid(m) THEN (IF x.cls \in OkClasses THEN "ok" ELSE "err")
     \* a pull member cannot process the pointer to its own "add" (no welcome message for it)
     ELSE IF x.kind = "member" /\ msgs[x.ref].act = "add" /\ msgs[x.ref].q = p /\ msgs[x.ref].acc = "pull" THEN "err"
     \* a removed member does not get the group secret later messages are encrypted with
